@@ -605,10 +605,11 @@ pub fn utxo_for(r: &mut Rng, i: u64, datum: bool) -> Utxo {
     if r.chance(1, 3) {
         assets = assets + CanonicalAssets::from_defined_asset(&policy_bytes(0x11), b"t1", 1 + r.below(1000) as i128);
     }
+    // consecutive UTxOs are two outputs of one transaction: same txid, different index
     let mut t = vec![0u8; 24];
-    t.extend(i.to_be_bytes());
+    t.extend((i / 2).to_be_bytes());
     Utxo {
-        r#ref: UtxoRef { txid: t, index: r.below(3) as u32 },
+        r#ref: UtxoRef { txid: t, index: (i % 2) as u32 + 2 * r.below(2) as u32 },
         address: addr_bytes(0xA1),
         assets,
         datum: if datum {
